@@ -777,7 +777,7 @@ fn generate(thorough: bool) -> Vec<Program> {
 
 fn main() {
     if let Some(job) = child_job() {
-        vcommon::quiet_panics();
+        vcommon::quiet_panics_keep_first();
         child(&job);
         return;
     }
@@ -828,7 +828,11 @@ fn main() {
                 None if r.timed_out => c.cap_hit(&format!("program {n} did not finish within {}s", timeout.as_secs())),
                 None => {
                     let tail: String = r.stderr.lines().rev().take(6).collect::<Vec<_>>().join(" | ");
-                    per_prog.insert(n.clone(), json!({"prog": n, "violation": format!("child aborted: {tail}")}));
+                    let msg = match vcommon::first_panic_of(&r.stderr) {
+                        Some(first) => format!("{first} [the child then aborted: {tail}]"),
+                        None => format!("child aborted: {tail}"),
+                    };
+                    per_prog.insert(n.clone(), json!({"prog": n, "violation": msg}));
                 }
             }
         }
